@@ -1,5 +1,10 @@
 """Regenerate /verif/MANIFEST.json from the registered plans."""
 import json
+import glob as _glob
+import os as _os
+_HERE = _os.path.dirname(_os.path.dirname(_os.path.abspath(__file__)))
+_kf = json.load(open(_os.path.join(_HERE, 'known_findings.json')))
+_nseeds = len(_glob.glob(_os.path.join(_HERE, 'seeded', 'S*', 'meta.json')))
 import os
 import sys
 
@@ -12,17 +17,17 @@ TEXT = {
  "C02": ("exploration", "3.C02", "differential against an independent reference codec written from the OASIS text, on generated packets and on every byte written in live sessions",
          "Every generated packet is compared byte for byte with the reference encoding (both protocol levels) and every packet written during session workloads is re-derived from the API arguments with the reference encoder; unrepresentable inputs must raise ValueError/TypeError."),
  "C03": ("exploration", "3.C03", "differential monitor: same byte stream under two chunkings must give identical observation logs",
-         "All 2^(n-1) compositions of short broker streams and all 1/2/3-cut placements, header cuts, byte-at-a-time and random compositions of long ones are fed to the real protocol; the ordered log of callbacks, Deferred outcomes, writes, close calls and the final timer table must equal that of one-packet-per-chunk delivery."),
+         "All 2^(n-1) compositions of short broker streams and all 1/2/3-cut placements, header cuts, byte-at-a-time and random compositions of long ones are fed to the real protocol; the ordered log of callbacks, Deferred outcomes, writes, close calls and the final timer table must equal that of one-packet-per-chunk delivery. Long streams also get a cut at every place a naive reading of the length bytes would take for a packet end and all single cuts up to 1200 bytes; timed families deliver the chunks 1-30 s apart with the keepalive tick, the PINGRESP deadline and retry timers firing in between (baseline: each packet whole at the instant its last byte arrives)."),
  "C04": ("exploration", "3.C04", "trace monitor over the boundary history (connect automaton, loss notification counter) on a virtual reactor",
-         "Exhaustive handshake matrix (all 256 return codes x profiles x versions x keepalive x transports) plus all short orderings of CONNACK/timeout/loss/second connect() (after a refusal, on a lost protocol, from the errback of a refusal) and seeded walks; each connect() Deferred and each loss notification is counted and timed on virtual time."),
+         "Exhaustive handshake matrix (all 256 return codes x profiles x versions x keepalive x transports) plus all short orderings of CONNACK/timeout/loss/second connect() (after a refusal, on a lost protocol, from the errback of a refusal), the CONNACK deadline probed for keepalive 0..65535, refused connect() calls followed by ordinary use, re-entrant session ends and seeded walks; each connect() Deferred and each loss notification is counted and timed on virtual time."),
  "C05": ("exploration", "3.C05", "trace monitor: per-publish automaton keyed by unique payload token, Deferred fire taps",
-         "Every publish Deferred of every history is matched against the acknowledgements actually delivered; small-scope sweep to depth 4/5 plus seeded walks with duplicated, late, stray and out-of-order acknowledgements."),
+         "Every publish Deferred of every history is matched against the acknowledgements actually delivered; the final acknowledgement a pending exchange waits for must complete it in that very step; small-scope sweep to depth 4/5 plus seeded walks with duplicated, late, stray, cross-type and out-of-order acknowledgements, re-entrant applications (publishing, chaining and disconnecting from callbacks), blocked-reactor steps and long runs."),
  "C06": ("exploration", "3.C06", "trace monitor: per-step prompt/acknowledgement counting and per-identifier QoS 2 exchange automaton across reconnects",
-         "Every inbound PUBLISH/PUBREL of every history is matched with the onPublish calls and acknowledgements observed in the same step; exactly-once is counted per exchange across persistent reconnects."),
+         "Every inbound PUBLISH/PUBREL of every history is matched with the onPublish calls and acknowledgements observed in the same step; exactly-once is counted per exchange across persistent reconnects; up to 70 (thorough 300) exchanges open at once."),
  "C07": ("exploration", "3.C07", "trace monitor: boundary-derived pending sets per kind, window oracle, end phase with an answering broker",
          "Each subscribe/unsubscribe call is judged against the number of requests pending on its connection and the window in force; completions are matched to the SUBACK/UNSUBACK delivered; the end phase proves nothing stays pending and the window is free again."),
  "C08": ("exploration", "3.C08", "trace monitor over virtual-time transmissions; each packet's own retry timer is identified through the reactor's delayed-call table",
-         "For all four retransmittable kinds, both protocol levels and a matrix of timeouts/bandwidths/factors/sizes/jitter policies, every expiry of a packet's timer must be followed by its retransmission with the right DUP flag and identical content, never earlier than the initial timeout; PUBLISH gaps are compared with and without the recorded jitter."),
+         "For all four retransmittable kinds, both protocol levels and a matrix of timeouts/bandwidths/factors/sizes/jitter policies, every expiry of a packet's timer must be followed by its retransmission with the right DUP flag and identical content, never earlier than the initial timeout configured when first sent (also when the timeout changes in between); raw PUBLISH gaps must never shrink; 40 (thorough 120) consecutive expiries per kind."),
  "C09": ("exploration", "3.C09", "trace monitor: per-exchange automaton PUBLISH+ -> PUBREC -> PUBREL+ -> PUBCOMP across connections",
          "Every QoS 2 exchange of every history (sweeps to depth 4/5 with expiries, duplicates, early PUBCOMP and persistent/clean reconnects; seeded walks) is replayed through the sender-side automaton."),
  "C10": ("exploration", "3.C10", "trace monitor: in-flight set and call-order index from the boundary, invariant evaluated after every step",
@@ -36,11 +41,11 @@ TEXT = {
  "C14": ("exploration", "3.C14", "trace monitor: allowed-operation matrix transcribed from the statement, effects of foreign packets compared step-wise",
          "The full matrix profile x state x operation and profile x state x broker packet is enumerated on both transports (with and without pending requests) and re-probed inside seeded walks and re-entrant callbacks."),
  "C15": ("exploration", "3.C15", "trace monitor on virtual time: PINGREQ gaps, deadline aborts, silence with keepalive 0 and after loss",
-         "Keepalive matrix (k up to 65535, PINGRESP at every characteristic offset, runs of up to 200 periods) on both transports and all profiles plus seeded walks."),
+         "Keepalive matrix (k up to 65535, PINGRESP at every characteristic offset, runs of up to 200 periods, will/user/password options, connect again after a refusal) on both transports and all profiles plus seeded walks; k is the argument of connect()."),
  "C16": ("exploration", "3.C16", "escaped-exception traps on every entry point + entitlement monitor fed by the strict reference decoder",
-         "All short byte strings over a reduced alphabet, all single-byte mutations/truncations/extensions of valid packets, every first byte with short bodies and random streams are injected into 16 contexts (profiles x states with requests pending, identifiers small, around 256 and around 0x4000); no exception may escape, every delivery/success must be entitled by a well-formed packet."),
+         "All short byte strings over a reduced alphabet, all single-byte mutations/truncations/extensions of valid packets, every flag nibble of every valid packet, every first byte with short bodies and random streams are injected into 16 contexts (profiles x states with requests pending, identifiers small, around 256 and around 0x4000); no exception may escape, every delivery/success must be entitled by a well-formed packet, also when it comes later (PUBLISH-shaped blobs are followed by a well-formed PUBREL for their identifier)."),
  "C17": ("exploration", "3.C17", "trace monitor: set of identifiers of unfinished Deferreds per factory at every API return; range check on every write",
-         "All histories, plus identifier-counter placements at 65526..65535 with requests of every kind unfinished, two-address walks and (thorough) a walk that wraps on its own."),
+         "All histories, plus identifier-counter placements at 65526..65535 with requests of every kind unfinished, blocks of 20-70 consecutive unfinished identifiers behind the wrap point, re-entrant session ends with the counter placed just before the dying identifiers, two-address walks and (thorough) a walk that wraps on its own."),
  "C18": ("exploration", "3.C18", "streaming parse of each transport's output by the strict reference decoder, tagged with the transport phase",
          "Every connection of every history is parsed as a client packet stream (CONNECT first and once, no broker-only types, DISCONNECT only from disconnect() with close, nothing after it, nothing after the loss report), including API calls and expiries in the closing interval of a TCP-like transport."),
  "C19": ("exploration", "3.C19", "differential monitor: per-address logs of a two-address history versus the same history with the other address's steps deleted",
@@ -89,7 +94,12 @@ def main():
                      "kind_free_text": "runtime monitors over boundary traces of the real code on a virtual reactor; reference codec; differential and crash-point workloads"}],
         "checks": checks,
         "not_applicable": na,
-        "notes": "bin/check <id> [--tier quick|thorough] [--seed N] (VERIF_SEED / VERIF_TIER honoured). Exit 0 held, 1 VIOLATION, 2 INCONCLUSIVE, 3 rig error. Known findings: known_findings.json (28 repaired defects listed as fixed, 2 open). Independent seeded changes: seeded/S01..S71 (all caught). Self-test: selftest/run_mutants.py (seeded faults, reversals of the fix commits, --refactors for behaviour-preserving and allowed-alternative implementations that must stay silent), selftest/seed_sweep.sh.",
+        "notes": ("bin/check <id> [--tier quick|thorough] [--seed N] (VERIF_SEED / VERIF_TIER honoured). Exit 0 held, 1 VIOLATION, 2 INCONCLUSIVE, 3 rig error. "
+                  "Known findings: known_findings.json (%d open; %d entries of %d repaired defects listed as fixed: they suppress nothing). "
+                  "Independent seeded changes: seeded/S01..S%d (all caught, see DESIGN.md 7.2). Self-test: selftest/full_selftest.sh = seed sweep, "
+                  "selftest/run_mutants.py (seeded faults and reversals of the fix commits; --refactors for behaviour-preserving and allowed-alternative "
+                  "implementations, mine and independent agents', that must stay silent), selftest/run_seeded.py, selftest/known_findings_selftest.py."
+                  % (len(_kf["open"]), len(_kf["fixed"]), len(set(x.split()[2] for x in _kf["fixed"])), _nseeds)),
     }
     with open("/verif/MANIFEST.json", "w") as f:
         json.dump(m, f, indent=1)
